@@ -193,6 +193,9 @@ fn encode_wal_entry(
             // trade-off: TTL precision is best-effort, not a hard guarantee.
             let expire_at_secs = if let Some(ttl) = ttl_secs {
                 let expire_at = std::time::SystemTime::now() + std::time::Duration::from_secs(*ttl);
+                #[cfg(d_engine_verif)]
+                let expire_at =
+                    crate::storage::verif_clock::now() + std::time::Duration::from_secs(*ttl);
                 expire_at
                     .duration_since(std::time::UNIX_EPOCH)
                     .map(|d| d.as_secs())
@@ -612,6 +615,8 @@ impl FileStateMachine {
         let mut applied_count = 0;
         let mut skipped_expired = 0;
         let now = std::time::SystemTime::now();
+        #[cfg(d_engine_verif)]
+        let now = crate::storage::verif_clock::now_or(now);
         {
             let mut data = self.data.write();
 
@@ -1548,6 +1553,8 @@ impl StateMachine for FileStateMachine {
         }
 
         let now = SystemTime::now();
+        #[cfg(d_engine_verif)]
+        let now = crate::storage::verif_clock::now_or(now);
 
         // Fast path: sample first 10 entries — if none expired, skip full scan (~30ns)
         if !lease.may_have_expired_keys(now) {
